@@ -271,7 +271,15 @@ func (c09) Exec(h []Ev) []Ev {
 					e["g2"] = obsSig(s2)
 				}
 			case "set":
+				e["seg_index"] = -1
+				if t := GS(e["target"]); len(t) > 4 && t[:4] == "seg:" {
+					var k int
+					fmt.Sscanf(t, "seg:%d", &k)
+					e["seg_index"] = k
+				}
+				e["before"] = obsSig(s)
 				c09Set(e, st)
+				e["after"] = obsSig(s)
 				e["data_after"] = B(s.Data())
 			}
 		})
